@@ -3,6 +3,7 @@ From Coq Require Import NArith Bool List.
 Import ListNotations.
 From XetModel Require Import Base.Codec Gen.ShardLayout Gen.ShardFacts Model.Blake3 Model.Merkle Model.Shard
   Proofs.CodecProofs Proofs.ShardProofs Proofs.DedupProofs Proofs.KeyedProofs.
+From XetModel Require Import Gen.ManagerFacts Model.Manager Proofs.ManagerProofs.
 Open Scope N_scope.
 
 (* keying a block: headers, lengths, offsets unchanged; every chunk hash replaced by keyed key h, which is h
@@ -54,7 +55,26 @@ Example C18_nonvacuous :
   keyed (repeat 1 32%nat) (repeat 2 32%nat) <> repeat 2 32%nat.
 Proof. split; [reflexivity|]. vm_compute. discriminate. Qed.
 
+
+(* the shard manager keeps one collection per key and asks each under its own key: whatever the routed query reports is a real
+   run of a block of a registered shard, the query hashes matching the stored ones under that collection's key ... *)
+Theorem C18_manager_answers_under_the_collection_key : forall cap ops qs, N.of_nat (length ops) <= 65536 -> qs <> [] ->
+  let b := fold_left (register cap) ops book0 in
+  exists r, mgr_query b qs = Found r /\
+    forall n sg, r = Some (n, sg) -> exists c s blk, In c (b_colls b) /\ In s (k_shards c) /\ In blk (sh_cass s) /\ truthful (k_key c) blk qs n sg.
+Proof. exact mgr_query_truthful. Qed.
+(* ... and a chunk stored under any key is found (below the cap), also when collections asked earlier hold an entry with the
+   same first 64 bits that turns out not to match *)
+Theorem C18_keyed_collection_chunk_found : forall cap ops, N.of_nat (length ops) <= 65536 ->
+  let b := fold_left (register cap) ops book0 in b_total b < cap ->
+  forall c s blk j ch q0 qr, In c (b_colls b) -> In s (k_shards c) -> In blk (sh_cass s) -> nth_error (ci_chunks blk) j = Some ch -> N.of_nat j <= 65535 ->
+    ce_hash ch = keyed (k_key c) q0 -> NoTruncClash c ->
+    exists n sg, mgr_query b (q0 :: qr) = Found (Some (n, sg)).
+Proof. exact registered_chunk_found. Qed.
+
 Print Assumptions C18_keyed_query_equiv.
 Print Assumptions C18_no_raw_hash_leak.
 Print Assumptions C18_export_cas_section_scan.
 Print Assumptions C18_expiry_rules.
+Print Assumptions C18_manager_answers_under_the_collection_key.
+Print Assumptions C18_keyed_collection_chunk_found.
